@@ -240,7 +240,10 @@ PROPS = {
         design="3/C13"),
     "C14": dict(
         engine="schedsim", profile="C14", builds=["rwdi", "dbg", "tm1"], level="exploration",
-        quick_s=45, thorough_s=600, chunk=40,
+        parts=[dict(engine="schedsim", profile="C14", builds=["rwdi", "dbg", "tm1"], weight=5.0),
+               # one thread, an explicit temporary_stack: scopes, growth, shrink, upstream failure (histsim)
+               dict(engine="histsim", profile="C14H", builds=["dbg", "rwdi"], weight=1.0)],
+        quick_s=50, thorough_s=600, chunk=40,
         rule="each run = one forked child process executing one plan drawn from a 63-bit seed: the real main "
              "thread plus 1-3 worker threads (started and joined at drawn points) run nested temporary_allocator "
              "scopes, allocations, shrink_to_fit, temporary_stack_initializer creation/destruction and "
